@@ -62,13 +62,28 @@ def reply_text(rng, mid, n):
     return '<nc:rpc-reply xmlns:nc="%s" message-id="%s">%s</nc:rpc-reply>' % (BASE_NS, mid, body)
 
 
+# RFC 3339 date-times as devices write them: whole seconds, fractions of any length (nanosecond clocks), numeric offsets,
+# a leap second, lower-case separators
+EVENT_TIMES = ['2020-01-01T00:00:%02dZ', '2023-03-01T12:00:%02d.123456789Z', '2023-03-01T12:00:%02d.5+05:30', '2024-02-29T23:59:%02d-08:00',
+               '2016-12-31T23:59:60Z', '2023-03-01t12:00:%02dz', '2023-03-01T12:00:%02d.000001Z', '2020-01-01T00:00:%02dZ']
+
+
+def event_time(k):
+    t = EVENT_TIMES[k % len(EVENT_TIMES)]
+    return t % (k % 60) if '%' in t else t
+
+
 def notification_text(rng, k):
-    return '<notification xmlns="%s"><eventTime>2020-01-01T00:00:%02dZ</eventTime><e>n%d ü</e></notification>' % (NOTIF_NS, k % 60, k)
+    return '<notification xmlns="%s"><eventTime>%s</eventTime><e>n%d ü</e></notification>' % (NOTIF_NS, event_time(k), k)
 
 
 ODD = ['<foo/>', '<rpc-reply xmlns="%s"><ok/></rpc-reply>' % BASE_NS, '<rpc-reply message-id="urn:uuid:ffffffff-0000-0000-0000-000000000000" xmlns="%s"><ok/></rpc-reply>' % BASE_NS,
        'not xml at all', '<notification xmlns="%s"><eventTime>x</eventTime><broken></notification>' % NOTIF_NS, '<hello xmlns="%s"/>' % BASE_NS,
-       '<notification><eventTime>x</eventTime></notification>', '']
+       '<notification><eventTime>x</eventTime></notification>', '',
+       # correctly framed, well-formed START TAG, body that is not XML: must not reach the caller as a notification / as data
+       '<notification xmlns="%s"><eventTime>2026-09-30T10:00:01Z</eventTime><link-down><if>ge-0/0/2</link-down></notification>' % NOTIF_NS,
+       '<notification xmlns="%s"><eventTime>2026-09-30T10:00:02Z</eventTime><a>&undefined;</a></notification>' % NOTIF_NS,
+       '<notification xmlns="%s"><eventTime>2026-09-30T10:00:03Z</eventTime><a>' % NOTIF_NS]
 
 
 class Server:
@@ -226,7 +241,10 @@ def explore(rng, transport, profile, flavor, runner_cls, max_cmds=70):
                     srv.push_raw_payload(b'<rpc-reply message-id="x" xmlns="%s"><data>\xff\xfe\xc3</data></rpc-reply>' % BASE_NS.encode())
                     info['bad_utf8'] = True
                 else:
-                    srv.push(rng.choice(ODD))
+                    odd = rng.choice(ODD)
+                    if odd.startswith('<notification'):
+                        info['odd_notifs'] = info.get('odd_notifs', 0) + 1
+                    srv.push(odd)
         # client actions
         if finished and R.conn_result == 'ok' and not closed and rng.random() < 0.25 and n_req < 6:
             n_req += 1
@@ -341,7 +359,7 @@ def explore(rng, transport, profile, flavor, runner_cls, max_cmds=70):
             else:
                 break
     if finished and R.conn_result == 'ok':
-        for _ in range(srv.notifs + 1):
+        for _ in range(srv.notifs + info.get('odd_notifs', 0) + 1):
             do(['take'])
     info['closed'] = closed
     info['finished'] = finished
